@@ -17,6 +17,7 @@ import (
 
 	"kvassverif/internal/core"
 	_ "kvassverif/internal/e1"
+	_ "kvassverif/internal/e2"
 	_ "kvassverif/internal/e3"
 	_ "kvassverif/internal/e4"
 	_ "kvassverif/internal/e5"
